@@ -12,6 +12,14 @@ pub use web_time::Instant;
 
 /// Checks if a deadline was exeeded.
 pub fn deadline_exceeded(deadline: Option<Instant>) -> bool {
+    #[cfg(similar_verif)]
+    {
+        if deadline.is_some() {
+            if let Some(answer) = verif_clock::probe() {
+                return answer;
+            }
+        }
+    }
     #[allow(unreachable_code)]
     match deadline {
         Some(deadline) => {
@@ -34,4 +42,54 @@ pub fn duration_to_deadline(add: Duration) -> Option<Instant> {
         return None;
     }
     Instant::now().checked_add(add)
+}
+
+/// Verification hook (`--cfg similar_verif` only): a virtual clock for deadline checks.
+///
+/// While fuel is set on the current thread, every [`deadline_exceeded`] call that carries a
+/// deadline consumes one unit and answers `false`; once the fuel is used up it answers `true`.
+/// Without fuel the real clock is consulted as usual.
+#[cfg(similar_verif)]
+pub mod verif_clock {
+    use std::cell::Cell;
+
+    thread_local! {
+        static FUEL: Cell<Option<u64>> = Cell::new(None);
+        static PROBES: Cell<u64> = Cell::new(0);
+        static EXPIRED: Cell<bool> = Cell::new(false);
+    }
+
+    /// Sets (or with `None` removes) the number of deadline checks that still answer "not expired"
+    /// and resets the probe counter.
+    pub fn set_fuel(fuel: Option<u64>) {
+        FUEL.with(|f| f.set(fuel));
+        PROBES.with(|p| p.set(0));
+        EXPIRED.with(|e| e.set(false));
+    }
+
+    /// Number of deadline checks answered by the virtual clock since the last `set_fuel`.
+    pub fn probes() -> u64 {
+        PROBES.with(|p| p.get())
+    }
+
+    /// Whether the virtual clock has already reported expiry since the last `set_fuel`.
+    pub fn expired() -> bool {
+        EXPIRED.with(|e| e.get())
+    }
+
+    pub(crate) fn probe() -> Option<bool> {
+        FUEL.with(|f| match f.get() {
+            None => None,
+            Some(left) => {
+                PROBES.with(|p| p.set(p.get() + 1));
+                if left == 0 {
+                    EXPIRED.with(|e| e.set(true));
+                    Some(true)
+                } else {
+                    f.set(Some(left - 1));
+                    Some(false)
+                }
+            }
+        })
+    }
 }
